@@ -139,6 +139,7 @@ var srcTargets = []srcTarget{
 	{Group: "Codec", Name: "decodeString"},
 	{Group: "Codec", Name: "encodeToString"},
 	{Group: "Codec", Name: "serialize"},
+	{Group: "Codec", Recv: "ClaimsData", Name: "hash"},
 	{Group: "Encode", Recv: "ClaimsData", Name: "doEncode", Only: "V2"},
 	{Group: "Encode", Recv: "ClaimsData", Name: "encode", Only: "V2"},
 	{Group: "Encode", Recv: "OperatorClaims", Name: "Encode", Only: "V2"},
@@ -1239,9 +1240,9 @@ func (t *tr) call(x *ast.CallExpr) string {
 				t.fail(x, "call of %s", full)
 			}
 		}
-		if inner, ok := f.X.(*ast.SelectorExpr); ok {
-			if id, ok := inner.X.(*ast.Ident); ok {
-				if pn, ok := t.info.Uses[id].(*types.PkgName); ok {
+		if chain, ok := t.pkgChain(f.X); ok {
+			{
+				{
 					if sig, ok := t.info.TypeOf(f).(*types.Signature); ok && sig.Results().Len() >= 1 && !sig.Variadic() {
 						// a method of a package-level value of an imported package (base64.RawURLEncoding.DecodeString): an
 						// unknown function of its arguments, named after package, value and method
@@ -1257,7 +1258,7 @@ func (t *tr) call(x *ast.CallExpr) string {
 						if len(rtys) > 1 {
 							rty = "(" + strings.Join(rtys, " * ") + ")"
 						}
-						name := t.observe("go_"+pn.Imported().Name()+"_"+inner.Sel.Name+"_"+f.Sel.Name, "("+strings.Join(append(tys, rty), " -> ")+")")
+						name := t.observe("go_"+chain+"_"+f.Sel.Name, "("+strings.Join(append(tys, rty), " -> ")+")")
 						return "(" + name + " " + strings.Join(as, " ") + ")"
 					}
 				}
@@ -2302,6 +2303,43 @@ func (t *tr) markMutated(e ast.Expr) {
 	t.mut = true
 }
 
+// pkgChain: an expression made only of package-level values and constants of imported packages and of methods applied
+// to such (base64.RawURLEncoding; base32.StdEncoding.WithPadding(base32.NoPadding)): a value of that package, named
+// after how it is written
+func (t *tr) pkgChain(e ast.Expr) (string, bool) {
+	switch x := e.(type) {
+	case *ast.ParenExpr:
+		return t.pkgChain(x.X)
+	case *ast.SelectorExpr:
+		if id, ok := x.X.(*ast.Ident); ok {
+			if pn, ok := t.info.Uses[id].(*types.PkgName); ok {
+				if _, isFunc := t.info.Uses[x.Sel].(*types.Func); !isFunc {
+					return pn.Imported().Name() + "_" + x.Sel.Name, true
+				}
+			}
+		}
+	case *ast.CallExpr:
+		f, ok := x.Fun.(*ast.SelectorExpr)
+		if !ok {
+			return "", false
+		}
+		base, ok := t.pkgChain(f.X)
+		if !ok {
+			return "", false
+		}
+		name := base + "_" + f.Sel.Name
+		for _, a := range x.Args {
+			an, ok := t.pkgChain(a)
+			if !ok {
+				return "", false
+			}
+			name += "_" + an
+		}
+		return name, true
+	}
+	return "", false
+}
+
 // unconv: e without conversions between pointer types whose pointees are translated alike ((*TagList)(c) for a
 // *CIDRList c: the same list under another method set)
 func (t *tr) unconv(e ast.Expr) ast.Expr {
@@ -2597,6 +2635,21 @@ func translateFunc(pkg *packages.Package, fd *ast.FuncDecl, coqName string, know
 	if t.effects {
 		effectful[pkg.TypesInfo.Defs[fd.Name]] = true
 	}
+	// what the function consults: the names of its observations of the world (untranslated functions of this and of
+	// imported packages, the clock) - so that a theorem can pin them (json.Marshal replaced by another function changes
+	// nothing in the shape of the translation, only this list)
+	var world []string
+	for _, n := range t.fieldOrder {
+		if strings.HasPrefix(n, "go_") {
+			world = append(world, "\""+n+"\"")
+		}
+	}
+	consults := fmt.Sprintf("Definition %s_consults : list string := [%s]%%list.\n", coqName, strings.Join(world, "; "))
+	defer func() {
+		if text != "" && !strings.Contains(text, ": untranslatable :=") {
+			text += consults
+		}
+	}()
 	if strings.Contains(text, "go_val") || strings.Contains(text, "go_nil") {
 		text = fmt.Sprintf("Definition %s (go_val : Type) (go_nil : go_val) %s : %s :=\n  %s.\n", coqName, strings.Join(params, " "), t.retTy, body)
 		usesVal[pkg.TypesInfo.Defs[fd.Name]] = true
